@@ -70,7 +70,7 @@ func (s *Scenario) Budget() int {
 	b := 25
 	for _, st := range s.Steps {
 		b += 4
-		if st.K == "stall-flood" {
+		if st.K == "stall-flood" || st.K == "status-churn-flood" || st.K == "junk-dials-during-sessions" {
 			b += 10
 		}
 	}
@@ -80,12 +80,14 @@ func (s *Scenario) Budget() int {
 var bookingNames = []string{"", "c08-bk-A", "c08-bk-B", "c08-bk-C"}
 
 // ---------------------------------------------------------------- generators
-var faultKinds = []string{"oversize", "reserved-opcode", "unmasked", "big-control", "truncated", "rst", "half-close", "stall-flood", "idle-stall"}
+var faultKinds = []string{"oversize", "reserved-opcode", "unmasked", "big-control", "truncated", "rst", "half-close", "stall-flood", "idle-stall",
+	"status-churn-flood", "junk-dials-during-sessions"}
 
 func genFaults(r *lib.Rng, i int) *Scenario {
 	sc := &Scenario{Kind: "faults", BufferSize: r.Range(1, 2)}
 	n := r.Range(2, 5)
 	flooded := false
+	heavy := map[string]bool{}
 	for k := 0; k < n; k++ {
 		kind := faultKinds[r.Intn(len(faultKinds))]
 		if i < len(faultKinds) && k == 0 {
@@ -99,6 +101,12 @@ func genFaults(r *lib.Rng, i int) *Scenario {
 				flooded = true
 				st.Msgs, st.Size = r.Range(18, 26), 1<<20
 			}
+		}
+		if kind == "status-churn-flood" || kind == "junk-dials-during-sessions" {
+			if heavy[kind] {
+				st.K = "half-close"
+			}
+			heavy[kind] = true
 		}
 		sc.Steps = append(sc.Steps, st)
 	}
@@ -385,16 +393,29 @@ func (c *child) fail(i int, so StepObs) {
 func hubStacks(all string) string {
 	var keep []string
 	for _, g := range strings.Split(all, "\n\n") {
-		if strings.Contains(g, "crossbar.(*Hub).run") || strings.Contains(g, "handleConnections") || strings.Contains(g, "crossbar.serveWs") || strings.Contains(g, "chanmap.") {
+		if strings.Contains(g, "crossbar.(*Hub).run") || strings.Contains(g, "handleConnections") || strings.Contains(g, "crossbar.serveWs") || strings.Contains(g, "chanmap.") ||
+			strings.Contains(g, "GetStats") || strings.Contains(g, "statsReporter") || (strings.Contains(g, "readPump") && strings.Contains(g, "sync.")) {
 			keep = append(keep, g)
 		}
 	}
 	if len(keep) == 0 {
 		return all
 	}
-	sort.SliceStable(keep, func(i, j int) bool { // the hub loop first
-		return strings.Contains(keep[i], "crossbar.(*Hub).run") && !strings.Contains(keep[j], "crossbar.(*Hub).run")
-	})
+	rank := func(g string) int { // the hub loop first, then whoever holds or waits for the hub's lock
+		switch {
+		case strings.Contains(g, "crossbar.(*Hub).run"):
+			return 0
+		case strings.Contains(g, "GetStats") || strings.Contains(g, "statsReporter"):
+			return 1
+		case strings.Contains(g, "readPump"):
+			return 2
+		}
+		return 3
+	}
+	sort.SliceStable(keep, func(i, j int) bool { return rank(keep[i]) < rank(keep[j]) })
+	if len(keep) > 12 {
+		keep = keep[:12]
+	}
 	return strings.Join(keep, "\n\n")
 }
 
@@ -509,6 +530,28 @@ func (c *child) runFaults() {
 	c.next = 2
 	for i, st := range c.sc.Steps {
 		so := StepObs{Step: i, K: st.K, Live: []uint64{}}
+		if st.K == "status-churn-flood" || st.K == "junk-dials-during-sessions" {
+			if st.K == "status-churn-flood" {
+				so.Note = c.statusChurnFlood(i)
+			} else {
+				so.Note = c.junkDialsDuringSessions(i)
+			}
+			if err := relay(64); err != nil {
+				so.Pair = err.Error()
+			} else {
+				so.Pair = "ok"
+				c.evs = append(c.evs, Ev{E: "Broadcast", N: W, A: 2}, Ev{E: "Drain", N: R, Cap: 1})
+			}
+			var cev []Ev
+			so.Canary, cev = c.canary(i)
+			c.evs = append(c.evs, cev...)
+			so.Events = c.take()
+			if so.Canary != "ok" {
+				c.fail(i, so)
+			}
+			c.emit(so)
+			continue
+		}
 		n := uint64(100 + i) // abstract name of the faulty connection
 		f, err := c.open(topic, fmt.Sprintf("c08-bk-F%d", i), fmt.Sprintf("c08-conn-%d", n))
 		if err != nil {
@@ -590,6 +633,224 @@ func (c *child) runFaults() {
 		}
 		c.emit(so)
 	}
+}
+
+// statusChurnFlood: for about 3 s, three writers flood a second topic, two goroutines fetch GET /status
+// in a tight loop (the statistics of every connection are read under the hub's lock), and three
+// goroutines connect and disconnect all the time (register / unregister need the hub's lock for
+// writing). Nothing here is a fault of any single client; together they exercise every lock the hub
+// loop shares with the rest of the relay. The events are abstracted to: the churn connections'
+// admissions and departures, and at most 40 of the flood's broadcasts.
+func (c *child) statusChurnFlood(i int) string {
+	topic := fmt.Sprintf("c08flood%d", i)
+	t := uint64(7000 + i)
+	stop := make(chan struct{})
+	var wg sync.WaitGroup
+	var mu sync.Mutex
+	var evs []Ev
+	sent, polls, churns := 0, 0, 0
+	base := uint64(20000 + 1000*i)
+	// one reader that drains, three writers that flood
+	rd, err := c.open(topic, "c08-bk-FR", "c08-flood")
+	if err == nil {
+		evs = append(evs, Ev{E: "WsAdd", A: 30, N: base}, Ev{E: "Register", N: base, A: t, Cap: c.sc.BufferSize})
+		go func() {
+			for {
+				if _, _, err := rd.ReadMessage(); err != nil {
+					return
+				}
+			}
+		}()
+	}
+	for g := 0; g < 3; g++ {
+		name := base + 1 + uint64(g)
+		w, err := c.open(topic, fmt.Sprintf("c08-bk-FW%d", g), "c08-flood")
+		if err != nil {
+			continue
+		}
+		evs = append(evs, Ev{E: "WsAdd", A: uint64(31 + g), N: name}, Ev{E: "Register", N: name, A: t, Cap: c.sc.BufferSize})
+		go func() { // a writer is also sent the others' messages
+			for {
+				if _, _, err := w.ReadMessage(); err != nil {
+					return
+				}
+			}
+		}()
+		wg.Add(1)
+		go func() {
+			defer wg.Done()
+			payload := bytes.Repeat([]byte("f"), 512)
+			for {
+				select {
+				case <-stop:
+					return
+				default:
+				}
+				w.SetWriteDeadline(time.Now().Add(2 * time.Second))
+				if err := w.WriteMessage(websocket.BinaryMessage, payload); err != nil {
+					return
+				}
+				mu.Lock()
+				sent++
+				if sent <= 40 {
+					evs = append(evs, Ev{E: "Broadcast", N: name, A: 3})
+				}
+				mu.Unlock()
+			}
+		}()
+	}
+	for g := 0; g < 2; g++ {
+		wg.Add(1)
+		go func() {
+			defer wg.Done()
+			for {
+				select {
+				case <-stop:
+					return
+				default:
+				}
+				c.rl.Status(c.stats)
+				mu.Lock()
+				polls++
+				mu.Unlock()
+			}
+		}()
+	}
+	for g := 0; g < 3; g++ {
+		wg.Add(1)
+		go func(g int) {
+			defer wg.Done()
+			for k := 0; ; k++ {
+				select {
+				case <-stop:
+					return
+				default:
+				}
+				conn, err := c.open(topic, fmt.Sprintf("c08-bk-CH%d", g), "c08-churn")
+				if err != nil {
+					time.Sleep(20 * time.Millisecond)
+					continue
+				}
+				mu.Lock()
+				churns++
+				name := base + 100 + uint64(churns)
+				if churns <= 60 {
+					evs = append(evs, Ev{E: "WsAdd", A: uint64(40 + g), N: name}, Ev{E: "Register", N: name, A: t, Cap: c.sc.BufferSize}, Ev{E: "Unregister", N: name})
+				}
+				mu.Unlock()
+				time.Sleep(time.Duration(5+k%7) * time.Millisecond)
+				conn.Close()
+			}
+		}(g)
+	}
+	time.Sleep(3 * time.Second)
+	close(stop)
+	done := make(chan struct{})
+	go func() { wg.Wait(); close(done) }()
+	select {
+	case <-done:
+	case <-time.After(8 * time.Second): // a frozen relay leaves writers and pollers stuck; the canary will tell
+	}
+	mu.Lock()
+	c.evs = append(c.evs, evs...)
+	note := fmt.Sprintf("status-churn-flood:sent>=%d,polls>=%d,churns>=%d", bucket(sent), bucket(polls), bucket(churns))
+	mu.Unlock()
+	return note
+}
+
+func bucket(n int) int {
+	b := 0
+	for _, x := range []int{10, 100, 1000, 10000, 100000} {
+		if n >= x {
+			b = x
+		}
+	}
+	return b
+}
+
+// junkDialsDuringSessions: for about 1.5 s, eight goroutines present websocket connections with codes
+// nobody issued while eight goroutines are being granted sessions (each grant stores a code), and a
+// booking is denied now and then (which purges its codes). Every dial must simply be refused.
+func (c *child) junkDialsDuringSessions(i int) string {
+	const topic = "c08junk"
+	stop := make(chan struct{})
+	var wg sync.WaitGroup
+	var mu sync.Mutex
+	dials, grants, denies := 0, 0, 0
+	for g := 0; g < 8; g++ {
+		wg.Add(1)
+		go func(g int) {
+			defer wg.Done()
+			for k := 0; ; k++ {
+				select {
+				case <-stop:
+					return
+				default:
+				}
+				mu.Lock()
+				over := dials >= 1200
+				dials++
+				mu.Unlock()
+				if over {
+					time.Sleep(5 * time.Millisecond)
+					continue
+				}
+				d := websocket.Dialer{HandshakeTimeout: 2 * time.Second}
+				conn, _, err := d.Dial(fmt.Sprintf("%s/session/%s?code=junk-%d-%d-%d", c.rl.Target, topic, i, g, k), nil)
+				if err == nil {
+					conn.Close()
+				}
+			}
+		}(g)
+	}
+	for g := 0; g < 8; g++ {
+		wg.Add(1)
+		go func(g int) {
+			defer wg.Done()
+			for {
+				select {
+				case <-stop:
+					return
+				default:
+				}
+				now := time.Now().Unix()
+				cl := c.rl.Claims(topic, fmt.Sprintf("c08-bk-J%d", g%4), []string{"read", "write"}, now-1, now-1, now+300)
+				c.rl.Session(topic, lib.Sign(cl, c.rl.Secret))
+				mu.Lock()
+				grants++
+				mu.Unlock()
+			}
+		}(g)
+	}
+	wg.Add(1)
+	go func() {
+		defer wg.Done()
+		for k := 0; ; k++ {
+			select {
+			case <-stop:
+				return
+			case <-time.After(100 * time.Millisecond):
+			}
+			bid := fmt.Sprintf("c08-bk-J%d", k%4)
+			c.rl.Deny(bid, time.Now().Unix()+600, c.adm)
+			c.rl.Allow(bid, time.Now().Unix()+600, c.adm)
+			mu.Lock()
+			denies++
+			c.evs = append(c.evs, Ev{E: "DenyBid", A: uint64(60 + k%4)})
+			mu.Unlock()
+		}
+	}()
+	time.Sleep(1500 * time.Millisecond)
+	close(stop)
+	done := make(chan struct{})
+	go func() { wg.Wait(); close(done) }()
+	select {
+	case <-done:
+	case <-time.After(8 * time.Second):
+	}
+	mu.Lock()
+	defer mu.Unlock()
+	return fmt.Sprintf("junk-dials:dials>=%d,grants>=%d", bucket(dials), bucket(grants))
 }
 
 func (c *child) take() []Ev { e := c.evs; c.evs = nil; return e }
